@@ -121,6 +121,10 @@ def plan(tier, seed):
             seen_e.add(e)
             yield ((("w", w1), ("e", e), ("w", w2)), " ")
             yield ((("e", e), ("w", w1), ("t", "#fun")), " ")
+        # ... and under relative_match_len below 1 (shorter match sequences survive next to the longest: the subject is built from all of them)
+        for e in sorted(seen_e):
+            for rml in (0.5, 0.2):
+                yield ((("w", w1), ("e", e), ("w", w2), ("R", rml)), " ")
         # two separate expressions with inert words between and behind them (what lies between two matched stretches is not part of either)
         short = ["tomorrow", "saturday", "friday", "monday", "5pm", "8pm", "today", "noon", "12.5.", "may 3rd", "at 9:30", "heute"]
         for e1 in short:
@@ -150,10 +154,13 @@ def _words(s):
     return [w for w in re.split(r"[\s,;\-]+", s) if w]
 
 
+_RML = [None]
+
+
 def _check(text, items, v, sig):
     """oracle on one text; returns (resolution obs, subject)"""
     m = lib()[2]
-    r = parse(text, TS)
+    r = parse(text, TS) if _RML[0] is None else parse(text, TS, relative_match_len=_RML[0])
     tags = [x for k, x in items if k == "t"]
     inert = [x for k, x in items if k == "w"]
     expr = next((x for k, x in items if k == "e"), None)
@@ -249,7 +256,9 @@ def run_case(case):
     keep = next((x for k, x in items if k == "K"), None)
     tagclass = next((x for k, x in items if k == "C"), None)
     variant = next((x for k, x in items if k == "V"), None)
-    items = [(k, x) for k, x in items if k not in ("K", "C", "V")]
+    rml = next((x for k, x in items if k == "R"), None)
+    items = [(k, x) for k, x in items if k not in ("K", "C", "V", "R")]
+    _RML[0] = rml
     if variant:
         return _variant_case(items, variant)
     text = _join([x for _, x in items], sep)
